@@ -82,6 +82,7 @@ type Interp struct {
 	params    map[string]string
 	vector    []replayItem // concrete mode (selfcheck)
 	vectorPos int
+	pinned    bool // vector mode that keeps inputs symbolic but pinned by solver constraints
 }
 
 func (it *Interp) stackTrace() []string {
